@@ -173,3 +173,16 @@ PROPS["C05"] = {
     "level_text": "Machine-checked Lean 4 theorems: invalid_apps_inert / valid_apps_start / valid_iff (an empty id or version 0 anywhere means run does nothing at all); check_requests_carry_params (every request of a check — each attempt incl. retries, each event report — carries the check's install source and, wherever an update check is present, its flags; via the builder invariant Canon carried through every phase) and attempts_carry_flags (every attempt lists an update check with the policy's flags for every entry), run_check_uses_policy_params; negative_decision_inert, before_decision_inert, runUnit_negative_inert (nothing but timing questions, timers, the decision and replies happens before or without a positive decision: no request, plan, install or reboot); updatePhase_gates with install_iff, install_after_ok, rebootNeeded_iff (plan, then the policy's decision, then the install iff the decision was Ok, then the reboot-needed question iff no app failed — an exact decision table over all scripts); rebootLoop_true_last / rebootWait_true_last / waitForReboot_reboot (the reboot call happens iff the wait ended with the policy's most recent answer yes, directly after it) and afterCheck_no_reboot. Tied to state_machine.rs by the per-unit differential run.",
     "level_note": "Trusted: Lean kernel; the hand-written state-machine model; harness and diff. That the interactivity header agrees with the install source is checked on every request by the harness (a mismatch is rendered into the trace line).",
 }
+
+PROPS["C10"] = {
+    "lean_modules": ["Omaha.Props.C10"],
+    "streams": sm_stream([[r"H uc", ["sid=", "rid="]],
+                          [r"H ev", ["sid=", "rid=", "->"], r"(?<=[\[;])[^|;\]]*(?=\|)|ev=[^;\]]*|(?:resp|fail):\S*"],
+                          r"M eventlost", r"E result", r"E state"]),
+    "rule": SM_RULE + "; each of the four event-report slots of a unit gets its own delivery outcome (delivered, transport error, HTTP error, forged when CUP is on); projection: every event report reduced to session / request id indices, the app ids it lists and the events each carries (type, result, error code, previous and next version, download time), its delivery outcome, the lost-event metrics, and — for outcome-independence — the check's result and announced states",
+    "trusted_extra": SM_TRUSTED,
+    "assumptions": ["'counted once per event' is per logical event: one for a template report, one per carried event for the per-app result report (what the code does)",
+                    "event_fields is stated for app sets with distinct ids (the embedder's app set is keyed by id); duplicate ids are exercised by the correspondence only"],
+    "level_text": "Machine-checked Lean 4 theorems: performUpdateCheck_sents / responsePhase_sents / installPhase_sents (reports_by_path: for every world and environment the event reports on the wire are exactly pathBuilders of the path taken — parse-error for all apps; plan-error / deferred / denied for the known offered apps; download-started, the per-app result report, update-complete for the installed apps iff any — in order, each at most once, minus those that cannot be built), reportEvent_sents / reportResults_sents / sents_omahaRequest (one call = at most one request with exactly the builder's payload: never retried), reportEvent_lost / reportResults_lost / losts_fold (an undelivered report is counted lost once per logical event, a delivered one never), eventBuilder_payload + nextVersions_has + parseError_all_apps + installedApps_spec + event_codes (event_fields: which apps, current version as previous version, manifest version as next version, protocol codes); same session on every request and parameters via C05's Canon chain; outcome-independence by C04's performUpdateCheck_result/marks (result and announcements are functions of the path, which does not read report outcomes). Tied to state_machine.rs by the per-unit differential run.",
+    "level_note": "Trusted: Lean kernel; the hand-written state-machine model; harness and diff. Freshness of request ids is checked on every unit by the correspondence (first-occurrence indices of the GUIDs read off the wire), not stated as a theorem.",
+}
